@@ -163,7 +163,7 @@ class Driver:
         if not os.path.exists(DRIVER):
             raise InfraError(f"driver not built: {DRIVER}")
         self.p = subprocess.Popen(
-            [DRIVER], stdin=subprocess.PIPE, stdout=subprocess.PIPE, text=True, bufsize=1
+            [DRIVER], stdin=subprocess.PIPE, stdout=subprocess.PIPE, stderr=subprocess.DEVNULL, text=True, bufsize=1
         )
         self.calls = 0
 
@@ -298,6 +298,7 @@ class Ctx:
         self.samples = []
         self.nontrivial = set()
         self.notes = []
+        self.harness_broken = []
 
     @property
     def thorough(self):
@@ -431,7 +432,10 @@ def _guarded(ctx, phase, fn, *args):
                 {"traceback": text, "phase": phase},
             )
             return None
-        raise InfraError(f"harness exception in {phase}:\n{text}")
+        # the harness itself tripped (typically over an output of unexpected shape/type from the library): the
+        # correspondence no longer checks; it is not a verdict by itself (the oracle is re-run with a larger budget)
+        ctx.harness_broken.append({"kind": "harness-exception", "fn": phase, "detail": text})
+        return None
 
 
 def _run(ctx, mod):
@@ -487,6 +491,7 @@ def _run(ctx, mod):
         broken.append({"kind": "correspondence", **d})
     # 3. oracle on the real code
     _guarded(ctx, "oracle", mod.oracle, ctx, 1)
+    broken.extend(ctx.harness_broken)
     if broken and not ctx.violations:
         ctx.notes.append("proof/correspondence broken: oracle re-run with 4x budget")
         ctx.rng = random.Random(ctx.seed * 7919 + 17)
